@@ -181,6 +181,9 @@ class SLCDriver(CIPDriver):
         self.__log.debug(f"SLC read_tag({tag})")
         
 
+        if not response:
+            return Tag(_tag["tag"], None, _tag["file_type"], response.error)
+
         status = request_status(response.raw)
 
         if status is not None:
@@ -242,6 +245,9 @@ class SLCDriver(CIPDriver):
         request = SendUnitDataRequestPacket(self._sequence)
         request.add(b"".join(message_request))
         response = self.send(request)
+
+        if not response:
+            return Tag(_tag["tag"], None, _tag["file_type"], response.error)
 
         status = request_status(response.raw)
         if status is not None:
